@@ -4,6 +4,19 @@ import json, os
 here = os.path.dirname(os.path.dirname(os.path.abspath(__file__)))
 table = json.load(open(os.path.join(here, "tools", "manifest_table.json")))
 props = [json.loads(l) for l in open(os.path.join(here, "properties.jsonl"))]
+table["checks"] = {}
+mdir = os.path.join(here, "tools", "manifest")
+for f in sorted(os.listdir(mdir)):
+    if f.endswith(".json"):
+        table["checks"][f[:-5]] = json.load(open(os.path.join(mdir, f)))
+# merge findings/*.json into known_findings.json (committed; never written at check time)
+fdir = os.path.join(here, "findings")
+allf = []
+for f in sorted(os.listdir(fdir)):
+    if f.endswith(".json"):
+        allf.extend(json.load(open(os.path.join(fdir, f))))
+kf = {"comment": "Authoritative list of genuine defects of mabel-dev/orso found by the checks (merged from findings/*.json by tools/mkmanifest.py). 'open' entries are printed as KNOWN-FINDING and suppress only failures matching their predicate; 'fixed' entries suppress nothing. Never written at check time.", "findings": allf}
+json.dump(kf, open(os.path.join(here, "known_findings.json"), "w"), indent=1)
 checks, na = [], []
 for p in props:
     pid = p["id"]
